@@ -78,7 +78,7 @@ Proof.
         apply nth_error_firstn. lia. }
       apply H; lia.
     + unfold quiet. rewrite B1, B6, B7, B5. cbn [s1 with_file writeable wal_latest wal_file wal_chk]. tauto.
-  - (* OCommitJournal *) unfold op_commit_journal. rewrite Hw. cbn. repeat split; try assumption. intros _; discriminate.
+  - (* OCommitJournal *) rewrite Hw. cbn [andb]. unfold op_commit_journal. rewrite Hw. cbn. repeat split; try assumption. intros _; discriminate.
   - (* OInvalidateJournal *) unfold op_invalidate_journal. cbn [fst snd]. split; [apply view_ext; try reflexivity; intros p; reflexivity|].
     split; [unfold quiet, with_dirty; cbn; tauto|intros H; discriminate H].
   - (* OWalHeader *) unfold op_wal_header, with_wal. cbn [fst snd]. split; [|split; [|intros H; discriminate H]].
